@@ -160,6 +160,8 @@ pub fn worker_main(check: &dyn Check, tier: Tier, seed: u64, shard: usize, nshar
     let mut skipping = skip_through.is_some();
     let mut last_flush = Instant::now();
     let mut nviol = 0usize;
+    // recorded known findings never count towards the early stop below
+    let known_sigs: Vec<String> = load_known(check.id()).into_iter().map(|(sig, _)| sig).collect();
     for g in check.gens() {
         let n = match tier {
             Tier::Quick => g.quick,
@@ -190,7 +192,7 @@ pub fn worker_main(check: &dyn Check, tier: Tier, seed: u64, shard: usize, nshar
                     merged.samples.push(s);
                 }
             }
-            nviol += out.violations.len();
+            nviol += out.violations.iter().filter(|v| !known_sigs.contains(&v.signature)).count();
             if !out.violations.is_empty() {
                 if let Ok(mut f) = std::fs::OpenOptions::new().create(true).append(true).open(&vio_path) {
                     for v in out.violations.iter() {
